@@ -265,6 +265,9 @@ func Build(r *rand.Rand, t *Topology, ids []*m.Address, o BuildOpts) (*Mesh, err
 // AnnounceAll lets every router announce itself to every peer, like announceRouter does.
 func (ms *Mesh) AnnounceAll() error {
 	for _, n := range ms.Nodes {
+		if n.Inst == nil {
+			continue // a stub: the far end of a one-way link, no router
+		}
 		for _, link := range n.Inst.PeeringV.GetLinks() {
 			if err := n.Inst.RouterV.AnnouncePing.Send(link.Peer()); err != nil {
 				return fmt.Errorf("node %d announce to %s: %w", n.Idx, link.Peer(), err)
